@@ -99,6 +99,7 @@ def configs(tier, seed):
             out.append(('lincomb/tensor/%s/251x200/C/%s/generic-scalars' % (dt, pat),
                         dict(kind='lincomb', space='tensor', shape=[251, 200], dtype=dt, pattern=pat, order='C',
                              scalars='generic')))
+    out.append(('nonfinite-operands', dict(kind='nonfinite', space='tensor', shape=[3])))
     out.append(('broadcast/power2', dict(kind='broadcast', space='power2', shape=None)))
     out.append(('broadcast/power3', dict(kind='broadcast', space='power3', shape=None)))
     if tier == 'thorough':
@@ -290,6 +291,25 @@ def case(ctx, kind, space, shape=None, dtype='float64', pattern='distinct', orde
                 ctx.assume(v != 0)
             ctx.eq('a/x', a / x, [a / u for u in px])
             same('division')
+        return
+    if kind == 'nonfinite':
+        # concrete facts: derived arithmetic on operands with infinite entries equals the entry-wise result
+        # (the single-operand forms are computed as a*x + 0*x in one size regime)
+        from symnp import proxy
+        proxy.STATE.armed = False
+        import warnings
+        for n in (3, T_S, T_S + 1):
+            r = odl.rn(n)
+            arr = np.arange(1.0, n + 1)
+            arr[0] = np.inf
+            arr[-1] = -np.inf
+            x = r.element(arr)
+            with np.errstate(all='ignore'):
+                for tag, got, want in (('x*2', x * 2, arr * 2), ('-x', -x, -arr), ('x/2', x / 2, arr / 2),
+                                       ('2*x', 2 * x, 2 * arr), ('x+x', x + x, arr + arr),
+                                       ('copy', x.copy(), arr)):
+                    ctx.fact('n=%d/%s' % (n, tag), np.array_equal(got.asarray(), want, equal_nan=True),
+                             'got %s expected %s' % (got.asarray()[[0, -1]], want[[0, -1]]))
         return
     if kind == 'broadcast':
         # power-space broadcasting: an element of the base space acts on every component
